@@ -7,6 +7,11 @@ import subprocess
 
 V = os.path.dirname(os.path.dirname(os.path.abspath(__file__)))
 reg = json.load(open(os.path.join(V, "checks", "registry.json")))
+import glob
+for f in sorted(glob.glob(os.path.join(V, "checks", "registry.d", "*.json"))):
+    frag = json.load(open(f))
+    reg["checks"].update(frag.get("checks", {}))
+    reg.setdefault("na", {}).update(frag.get("na", {}))
 props = [json.loads(l) for l in open(os.path.join(V, "properties.jsonl"))]
 checks = []
 na = []
